@@ -561,7 +561,7 @@ theorem old_skip_ignores_limit : ∀ n : Nat, skipTOld (nest n) = .ok ()
 
 /-- where the current one stops: the same value, limit 1 -/
 theorem old_witness_now_rejected (n : Nat) : skipT 1 (nest (n + 1)) = .error .depth := by
-  simp [nest, skipT, skipTFields]
+  cases n <;> simp [nest, skipT, skipTFields]
 
 end Old
 
